@@ -45,6 +45,7 @@ let install register get =
         let l = if spec then FsTree.spec_walk tree p k else FsTree.c_walk (S (FsTreeP.cnt tree p)) tree p k in
         let ents = List.sort compare (List.map (fun (q, kq) -> str_of q ^ ":" ^ kletter kq) l) in
         "res=ok ents=" ^ String.concat ";" ents))
+    | "readlink" -> look_str (FsTree.lstat tree p) (function FsTree.KLink -> "res=ok" | _ -> "res=other")
     | "readdir" -> look_str (FsTree.stat tree p) (function
         | FsTree.KDir ->
           let ents = List.sort compare (List.map (fun (q, k) ->
@@ -67,6 +68,10 @@ let install register get =
       | ("rename" | "posixrename"), _ -> FsTree.p_rename tree p p2   (* the server answers both with os.Rename *)
       | "link", _ -> FsTree.p_link tree p p2
       | "symlink", _ -> FsTree.p_symlink (get kv "target" = "empty") tree p
+      | ("create" | "openfile"), _ ->
+        (* flags as package os has them on Linux: O_WRONLY 1, O_RDWR 2, O_CREAT 0x40, O_EXCL 0x80, O_TRUNC 0x200 *)
+        let fl = int_of_string ("0x" ^ get kv "flags") in
+        FsTree.p_open (fl land 0x40 <> 0) (fl land 0x80 <> 0) (fl land 3 <> 0 || fl land 0x200 <> 0) tree p
       | o, _ -> failwith ("bad op " ^ o) in
     match r with
     | None -> "skip"
